@@ -380,7 +380,7 @@ func (c *Check) RaceAudit(pkg string) {
 	if vgo == "" {
 		vgo = "go"
 	}
-	args := []string{"test", "-race", "-count=1", "-vet=off"}
+	args := []string{"test", "-race", "-count=1", "-vet=off", "-v"}
 	if mf := os.Getenv("VERIF_MODFILE"); mf != "" {
 		args = append(args, "-modfile="+mf)
 	}
